@@ -109,6 +109,8 @@ func runC08(e *Env) {
 		{Chord: &refplay.Chord{Degree: iv("64"), Symbol: ""}, Values: one()},
 		{Chord: &refplay.Chord{Degree: theory.Interval{Num: 1, Q: theory.DoublyDiminished}, Symbol: "", Bass: &theory.Interval{Num: 1, Q: theory.DoublyDiminished}}, Values: one(), Key: sp("Cb")},
 		{Chord: &refplay.Chord{Degree: iv("1"), Symbol: ""}, Values: one(), Meta: map[string]string{"txt": strings.Repeat("é", 100)}},
+		{Chord: &refplay.Chord{Degree: iv("1"), Symbol: ""}, Values: one(), BPM: up(1000)},
+		{Values: one(), BPM: up(60000000), Meter: &timing.Frac{Num: 255, Den: 128}},
 	}
 	all := append(append([]refplay.Inst{}, shapes...), extra...)
 	var hist [][]int
@@ -162,7 +164,7 @@ func runC08(e *Env) {
 		e.R.NonTrivial(fmt.Sprint(j.h, j.n))
 		e.R.State(fmt.Sprintf("N=%d", j.n))
 	})
-	e.R.AddPart(ev.Part{Name: "histories-x-tracks", Enumerated: fmt.Sprintf("all histories of length <= %d over 13 instance shapes (C06's 7 + bass doubling a tone, out-of-range degrees 40 and 64, lowest pitch, 200-byte text) x N in %v", maxLen, ns), Executions: int64(len(jobs)), Exhaustive: true})
+	e.R.AddPart(ev.Part{Name: "histories-x-tracks", Enumerated: fmt.Sprintf("all histories of length <= %d over 15 instance shapes (C06's 7 + bass doubling a tone, out-of-range degrees 40 and 64, lowest pitch, 200-byte text, tempo 1000 and 60 000 000 bpm with meter 255/128) x N in %v", maxLen, ns), Executions: int64(len(jobs)), Exhaustive: true})
 
 	// flag product through the real binary
 	doc := []refplay.Inst{shapes[0], shapes[4], shapes[1]}
